@@ -79,6 +79,14 @@ def fintlist(alist):
     return outlist
 
 
+def fnumber(value):
+    """number (int or float); strings are converted to float"""
+    if isinstance(value, numbers.Number):
+        return value
+    else:
+        return float(value)
+
+
 def lcstr(astr):
     """lower-case string"""
     return astr.lower()
@@ -92,5 +100,6 @@ func_types = {
     fboolorfloat: (bool, np.bool_, float),
     fint: numbers.Integral,
     fintlist: list,
+    fnumber: numbers.Number,
     float: numbers.Number,
     lcstr: str}
